@@ -67,6 +67,7 @@ struct World {
   gen::Pool pool;
   std::vector<bool> observed;
   std::vector<uint64_t> finger;
+  std::vector<bool> taint;  // value depends on a triangulation (Warp, Refine, Smooth, Simplify, float re-import ...)
 };
 
 // runs the history; eager => observe every value at creation. Returns false on a violation.
@@ -90,6 +91,7 @@ bool RunManifold(Tape& t, Outcome& o, bool eager, std::vector<uint64_t>& finalId
         w.pool.v[dst] = w.pool.v[src];
         w.observed[dst] = w.observed[src];
         w.finger[dst] = w.finger[src];
+        w.taint[dst] = w.taint[src];
       } else {
         int opk = t.range(0, 2);
         d << " ; copy=v" << dst << "; v" << dst << (opk == 0 ? " += v" : opk == 1 ? " -= v" : " ^= v") << src;
@@ -103,6 +105,8 @@ bool RunManifold(Tape& t, Outcome& o, bool eager, std::vector<uint64_t>& finalId
         w.pool.v.push_back(keep);
         w.observed.push_back(keepObs);
         w.finger.push_back(keepF);
+        w.taint.push_back(w.taint[dst]);
+        w.taint[dst] = w.taint[dst] || w.taint[src];
         if (keepObs) sharedMutation = true;
       }
     } else if (special == 2) {
@@ -114,9 +118,14 @@ bool RunManifold(Tape& t, Outcome& o, bool eager, std::vector<uint64_t>& finalId
       w.pool.v.push_back(nv);
       w.observed.push_back(w.observed[src]);
       w.finger.push_back(w.finger[src]);
+      w.taint.push_back(w.taint[src]);
     } else {
       gen::StepInfo si = gen::Step(t, w.pool, d, opt);
-      while (w.observed.size() < w.pool.v.size()) { w.observed.push_back(false); w.finger.push_back(0); }
+      static const char* meshDependent[] = {"Warp", "WarpBatch", "Refine", "RefineToLength", "RefineToTolerance", "SmoothOut", "Smooth", "CalcNormals+SmoothByNormals", "Simplify", "SetTolerance", "Reimport32", "CalculateNormals", "CalculateCurvature", "MinkowskiSum", "MinkowskiDifference", "Decompose"};
+      bool tainted = false;
+      for (auto* n : meshDependent) tainted |= si.op == n;
+      for (int in : si.inputs) if (in < int(w.taint.size())) tainted |= w.taint[in];
+      while (w.observed.size() < w.pool.v.size()) { w.observed.push_back(false); w.finger.push_back(0); w.taint.push_back(tainted); }
       // a derived value that shares storage with an observed input: copy / AsOriginal / SetProperties / transforms ...
       for (int in : si.inputs) if (in < int(before) && w.observed[in] && !si.topologyChanging) sharedMutation = true;
       if (si.op == "copy" && !si.inputs.empty() && w.observed[si.inputs[0]]) {
@@ -143,7 +152,19 @@ bool RunManifold(Tape& t, Outcome& o, bool eager, std::vector<uint64_t>& finalId
         return false;
       }
   }
-  for (auto& v : w.pool.v) finalIdFree.push_back(Finger(v.m, true));
+  // what the twin worlds are compared on: the solid (Status, emptiness, volume),
+  // not the mesh - forcing an intermediate legitimately changes the evaluation
+  // order and with it the triangulation (C03 promises the same solid, not bits)
+  for (size_t vi = 0; vi < w.pool.v.size(); ++vi) {
+    auto& v = w.pool.v[vi];
+    if (w.taint[vi]) { finalIdFree.push_back(~0ull); finalIdFree.push_back(0); finalIdFree.push_back(0); continue; }
+    finalIdFree.push_back(uint64_t(v.m.Status()));
+    finalIdFree.push_back(v.m.IsEmpty());
+    double vol = v.m.Volume();
+    uint64_t bits;
+    memcpy(&bits, &vol, sizeof bits);
+    finalIdFree.push_back(bits);
+  }
   return true;
 }
 
@@ -156,8 +177,16 @@ void ModeManifold(Tape& t, Outcome& o) {
   std::ostringstream sink;
   if (!RunManifold(t2, o, true, eagerF, sink, shared2)) return;
   if (lazyF.size() != eagerF.size()) { o.fail("value:twin-pool-size", "lazy and eager worlds built different pools"); return; }
-  for (size_t i = 0; i < lazyF.size(); ++i)
-    if (lazyF[i] != eagerF[i]) { o.fail("value:laziness-observable", verif::fmt("v%zu differs between the lazily and the eagerly observed run (modulo mesh IDs)", i)); return; }
+  for (size_t i = 0; i + 2 < lazyF.size(); i += 3) {
+    double a, b;
+    memcpy(&a, &lazyF[i + 2], sizeof a);
+    memcpy(&b, &eagerF[i + 2], sizeof b);
+    if (lazyF[i] == ~0ull) continue;  // triangulation-dependent value: not comparable across evaluation orders
+    if (lazyF[i] != eagerF[i] || lazyF[i + 1] != eagerF[i + 1] || std::abs(a - b) > 1e-7 * (1 + std::abs(a))) {
+      o.fail("value:laziness-observable", verif::fmt("v%zu differs between the lazily and the eagerly observed run: status %d/%d volume %.12g/%.12g", i / 3, int(lazyF[i]), int(eagerF[i]), a, b));
+      return;
+    }
+  }
   o.nontrivial = shared;
   o.cls(shared ? "observed-then-derived" : "no-shared-derivation");
 }
@@ -218,7 +247,7 @@ void Body(Tape& t, Outcome& o) {
 
 int main(int argc, char** argv) {
   verif::Config cfg{"C05", "values",
-                    "histories of 4-24 steps over a growing pool of Manifolds (all 32 op kinds of the shared program generator, plus copy-assign over live slots, compound += -= ^= on slots with live copies, move) or 3-16 steps over CrossSections (Boolean, transforms, Offset, Simplify/SetTolerance, Decompose, Hull, copy, assign); values are first observed at generated, often late, times; oracle: byte fingerprint (getters, 64- and 32-bit export, every run/merge/tangent field) of every observed slot identical after every later step, copy == source, lazily vs eagerly observed twin run equal modulo mesh IDs; non-trivial = an observed value was later copied / transformed / assigned / compound-assigned (shared storage) and re-observed; distinct = history text",
+                    "histories of 4-24 steps over a growing pool of Manifolds (all 32 op kinds of the shared program generator, plus copy-assign over live slots, compound += -= ^= on slots with live copies, move) or 3-16 steps over CrossSections (Boolean, transforms, Offset, Simplify/SetTolerance, Decompose, Hull, copy, assign); values are first observed at generated, often late, times; oracle: byte fingerprint (getters, 64- and 32-bit export, every run/merge/tangent field) of every observed slot identical after every later step, copy == source, lazily vs eagerly observed twin run denote the same solids (Status, emptiness, volume); non-trivial = an observed value was later copied / transformed / assigned / compound-assigned (shared storage) and re-observed; distinct = history text",
                     10};
   return verif::run_main(argc, argv, cfg, Body);
 }
